@@ -133,6 +133,7 @@ def run(ctx):
     length_rules(ctx, w)
     byte_limit_rules(ctx, w)
     charset_rules(ctx, w)
+    or_alias_dispatch_rule(ctx, w, "C10.or-alias")
     localpart_rules(ctx, w)
     split_agreement(ctx, w, "C10.split-agreement")
     forms_rules(ctx, w, types)
@@ -641,6 +642,39 @@ def charset_rules(ctx, w):
         ctx.check(got == set(chars), "C10.charset", key, w.where(f),
                   bad_msg=f"{mod}::validate does not restrict the characters to the grammar's class [{chars[62:]} and ASCII letters and digits]: accepts "
                           f"{sorted(got - set(chars))[:8]} beyond / refuses {sorted(set(chars) - got)[:8]} of it", ok_msg=f"class = ASCII alphanumerics + {chars[62:]!r} ({how})")
+
+
+def or_alias_dispatch_rule(ctx, w, rule):
+    """RoomOrAliasId's language is the union of RoomId's and RoomAliasId's: its validator hands the text to the validator of the type its sigil
+    names and adds no condition of its own. (The unchecked conversions From<&RoomId> / From<&RoomAliasId> for &RoomOrAliasId rely on it, and so
+    does MatrixId: an event URI parses its room part as RoomOrAliasId, a room URI as RoomId.)"""
+    ctx.rule(rule, "room_id_or_alias_id::validate: first byte '!' -> room_id::validate(s), '#' -> room_alias_id::validate(s), anything else -> MissingLeadingSigil; "
+                   "no other outcome (a stricter or laxer union breaks the conversions between the three types)")
+    f = w.fn("ruma_identifiers_validation::room_id_or_alias_id::validate")
+    dex = D.Dex(w.lookup, adt_discr=w.adt_discr, inline=lambda n: "{closure" in n)
+    paths = dex.paths(f, [D.sym("s")])
+    got = {}
+    bad = []
+    for p in paths:
+        if p.kind != "ret":
+            bad.append(p.kind)
+            continue
+        first = None
+        for a, t in p.conds:
+            m = re.fullmatch(r"(?:slice::first\((?:str::as_bytes\()?s\)?\)\.Some\.0|.*\[0\].*)==(\d+)", D.show_atom(a).replace(" ", ""))
+            if m and t:
+                first = chr(int(m.group(1)))
+            m = re.fullmatch(r"(?:\w+::)*starts_with\(s, '(.)'\)", D.show_atom(a))
+            if m and t:
+                first = m.group(1)
+            if a[0] == "int" and t and isinstance(a[2], int) and ("first(" in D.show(a[1]) or "[0]" in D.show(a[1])):
+                first = chr(a[2])
+        got.setdefault(first, set()).add(D.show(p.ret))
+    want = {"!": {"room_id::validate(s)"}, "#": {"room_alias_id::validate(s)"}, None: {"Result::Err(Error::MissingLeadingSigil)"}}
+    ctx.check(not bad and got == want, rule, f"{rule}:dispatch", w.where(f),
+              bad_msg=f"outcomes by first byte: { {k: sorted(v) for k, v in got.items()} }{' ; non-returning paths: ' + str(bad) if bad else ''} - the room-or-alias language is "
+                      f"not the union of the room id and room alias languages (e.g. a room id without server name, accepted by RoomId, is refused as RoomOrAliasId, "
+                      f"so an event URI that was formatted from it does not parse back)")
 
 
 def length_rules(ctx, w):
